@@ -51,6 +51,15 @@ func reqMh(content string) multihash.Multihash {
 	return mh
 }
 
+// ingestAddrs: the address strings of an ingest request are the caller's, kept as they are -- so they are spelled as no
+// multiaddr printer would spell them (a trailing separator, a port with a leading zero, something that is no multiaddr).
+func ingestAddrs(content string) []string {
+	if content == "c2" {
+		return []string{"/ip4/9.9.9.9/tcp/1234"}
+	}
+	return []string{"/ip4/8.8.8.8/tcp/9999/", "/dns4/provider.example.com/tcp/0443/https", "provider.example.com:443"}
+}
+
 func contentAddrs(content string) []string {
 	if content == "c2" {
 		return []string{"/ip4/9.9.9.9/tcp/1234"}
@@ -77,7 +86,7 @@ func makeReq(kind, named, content, key, kt string) ([]byte, error) {
 func makeReqWith(kind, named, content string, k crypto.PrivKey, kt string) ([]byte, error) {
 	pid := ids.PeerT(named, kt)
 	if kind == "ingest" {
-		return model.MakeIngestRequest(pid, k, reqMh(content), []byte("ctx-"+content), reqMD, contentAddrs(content))
+		return model.MakeIngestRequest(pid, k, reqMh(content), []byte("ctx-"+content), reqMD, ingestAddrs(content))
 	}
 	return model.MakeRegisterRequest(pid, k, contentAddrs(content))
 }
@@ -121,6 +130,31 @@ func craftReq(rc *reqCase, kt string) ([]byte, error) {
 	switch c.Alt {
 	case "none":
 		return data, nil
+	case "named-alias":
+		// the request names the other multihash form of the signer's own key: the identity form when the real ID is the sha2-256
+		// one (ECDSA, RSA), the sha2-256 form when the real ID is the identity one (Ed25519, secp256k1)
+		k := ids.KeyT(c.Key, kt)
+		kb, err := crypto.MarshalPublicKey(k.GetPublic())
+		if err != nil {
+			return nil, err
+		}
+		real, _ := peer.IDFromPublicKey(k.GetPublic())
+		code := uint64(multihash.IDENTITY)
+		if dm, err := multihash.Decode([]byte(real)); err == nil && dm.Code == multihash.IDENTITY {
+			code = multihash.SHA2_256
+		}
+		amh, err := multihash.Sum(kb, code, -1)
+		if err != nil {
+			return nil, err
+		}
+		alias := peer.ID(amh)
+		if alias == real {
+			return nil, errors.New("alias equals the real peer ID")
+		}
+		if c.Made == "ingest" {
+			return model.MakeIngestRequest(alias, k, reqMh("c1"), []byte("ctx-c1"), reqMD, ingestAddrs("c1"))
+		}
+		return model.MakeRegisterRequest(alias, k, contentAddrs("c1"))
 	case "payload-content", "payload-named":
 		named, content := c.Named, "c2"
 		if c.Alt == "payload-named" {
@@ -218,7 +252,7 @@ func readReq(kind string, data []byte, kt string) (ob reqObs) {
 		ob.Ok, ob.Named = true, nameOfPeer(req.ProviderID, kt)
 		for _, ct := range []string{"c1", "c2"} {
 			if bytes.Equal(req.Multihash, reqMh(ct)) && string(req.ContextID) == "ctx-"+ct && bytes.Equal(req.Metadata, reqMD) &&
-				fmt.Sprint(req.Addrs) == fmt.Sprint(contentAddrs(ct)) && req.Seq != 0 {
+				fmt.Sprintf("%q", req.Addrs) == fmt.Sprintf("%q", ingestAddrs(ct)) && req.Seq != 0 {
 				ob.Content = ct
 			}
 		}
@@ -294,7 +328,7 @@ func RunC18(args []string) *rep.Report {
 				pid, k := ids.PeerT(rc.Case.Named, kt), ids.KeyT(rc.Case.Key, kt)
 				var cerr error
 				if rc.Case.Made == "ingest" {
-					cerr = icl.IndexContent(context.Background(), pid, k, reqMh("c1"), []byte("ctx-c1"), reqMD, contentAddrs("c1"))
+					cerr = icl.IndexContent(context.Background(), pid, k, reqMh("c1"), []byte("ctx-c1"), reqMD, ingestAddrs("c1"))
 				} else {
 					cerr = icl.Register(context.Background(), pid, k, contentAddrs("c1"))
 				}
